@@ -239,6 +239,24 @@ def time_small(h1, m1, s1, h2, m2, s2, fmt1, fmt2):
     return True
 
 
+def mem_small(a, ua, b, ub, c, uc, n):
+    """combine_max keeps a memory of maximal size - E1 on realised values from small sets"""
+    L.reset()
+    from fractions import Fraction
+
+    units = ["B", "KB", "MB", "GB"]
+    a, b, c = (L.concretize_in(x, (0, 1, 2, 100, 400, 999, 1000)) for x in (a, b, c))
+    ua, ub, uc = (L.concretize(x, 0, 3) for x in (ua, ub, uc))
+    ms = [f"{a}{units[ua]}", f"{b}{units[ub]}", f"{c}{units[uc]}"][:n]
+    sizes = [Fraction(x) * 1000**u for x, u in ((a, ua), (b, ub), (c, uc))][:n]
+    out = Resources.combine_max([Resources(memory=m) for m in ms]).memory
+    if out is None or out not in ms:
+        return fail("memory dropped or invented")
+    if sizes[ms.index(out)] < max(sizes):
+        return fail("memory is not the largest operand")
+    return True
+
+
 CANARIES = {}
 
 
@@ -354,6 +372,17 @@ def obligations(tier):
             bounds="H:MM:SS / HH:MM:SS / MM:SS with fields from small sets (realised); see the k1_* members for all digit strings",
         )
     )
+    for n in (2, 3):
+        obs.append(
+            Ob(
+                f"mem_small_n{n}",
+                [("a", I), ("ua", I), ("b", I), ("ub", I), ("c", I), ("uc", I)],
+                ["a in (1, 100, 400, 999) and b in (1, 100, 400, 1000) and c in (0, 2)", "0 <= ua <= 3 and 0 <= ub <= 3 and uc in (0, 3)"],
+                f"H.mem_small(a, ua, b, ub, c, uc, {n})",
+                timeout=300,
+                bounds=f"{n} memory strings with values from small sets and units B..GB (realised); exact rational comparison",
+            )
+        )
     # ---- E2 (kernelsmt) members ---------------------------------------------------------
     thorough = tier == "thorough"
     for nf1 in (2, 3, 4):
